@@ -17,7 +17,7 @@ const NEV: usize = 16384;
 const GUARD_BYTE: u8 = 0xA5;
 const FRESH_BYTE: u8 = 0xCD;
 const FREED_BYTE: u8 = 0xDD;
-const FILL_CAP: usize = 1 << 16;
+const FILL_CAP: usize = 1 << 13;
 pub const HARD_CAP: usize = 1 << 30;
 pub const REFUSAL_BUDGET: u32 = 1000;
 
